@@ -125,7 +125,7 @@ Qed.
 
 (* ======================================================================= Part C *)
 Lemma exec_op_readonly_buf o st : readonly o = true -> s_buf (exec_op o st) = s_buf st.
-Proof. destruct o as [| |[k|]| | |]; simpl; intro H; try reflexivity; discriminate. Qed.
+Proof. destruct o as [| |[k|]| | | |]; simpl; intro H; try reflexivity; discriminate. Qed.
 
 Lemma exec_readonly_buf ops st : forallb readonly ops = true -> s_buf (exec ops st) = s_buf st.
 Proof.
@@ -276,3 +276,7 @@ Lemma strip_in_array :
   /\ strip_ids true (s "{'/K': IndirectObject(8, 7, 1), '/L': [IndirectObject(10, 0, 22)]}")
      = Some (s "{'/K': IndirectObject(8, 7), '/L': [IndirectObject(10, 0)]}").
 Proof. split; vm_compute; reflexivity. Qed.
+
+(* closing the caller's buffer (directly or through a wrapper that owns it) loses the content for the caller *)
+Lemma close_loses_buffer : s_buf (exec [OSeek 0; ORead None; OClose] (mkStream [1;2] 0)) <> [1;2].
+Proof. vm_compute. intro H. discriminate H. Qed.
